@@ -661,7 +661,8 @@ FILE_TAILS = ["\n", "\n", "", "\n# end of file", "  # trailing comment", "\n\n\n
 
 def materialize(world, root: str, schema_partition=None, queries_partition=None, creation_order_seed: Optional[int] = None,
                 extra_cfg: Optional[Dict[str, Any]] = None, remote_url: Optional[str] = None,
-                tail_seed: Optional[int] = None, decoys_seed: Optional[int] = None, symlink_seed: Optional[int] = None) -> Dict[str, Any]:
+                tail_seed: Optional[int] = None, decoys_seed: Optional[int] = None, symlink_seed: Optional[int] = None,
+                linked_file_seed: Optional[int] = None) -> Dict[str, Any]:
     """Write the project into `root`.  Returns {"argv", "config_path", "targets", "cfg"}."""
     import random
     os.makedirs(root, exist_ok=True)
@@ -673,6 +674,9 @@ def materialize(world, root: str, schema_partition=None, queries_partition=None,
         cfg["schema_path"] = "schema_dir"
         for rel, idxs in schema_partition:
             writes.append((os.path.join("schema_dir", rel), "\n\n".join(world["defs"][i]["sdl"] for i in idxs) + "\n"))
+    elif world.get("literal_odd_dirs"):
+        cfg["schema_path"] = "~/schema.graphql"
+        writes.append((os.path.join("~", "schema.graphql"), sdl_of(world)))
     else:
         cfg["schema_path"] = "schema.graphql"
         writes.append(("schema.graphql", sdl_of(world)))
@@ -683,6 +687,9 @@ def materialize(world, root: str, schema_partition=None, queries_partition=None,
                 cfg["queries_path"] = "queries_dir"
                 for rel, idxs in queries_partition:
                     writes.append((os.path.join("queries_dir", rel), "\n\n".join(qdefs[i] for i in idxs) + "\n"))
+            elif world.get("literal_odd_dirs"):
+                cfg["queries_path"] = "$GRAPHQL_SOURCES/queries.graphql"
+                writes.append((os.path.join("$GRAPHQL_SOURCES", "queries.graphql"), queries_of(world)))
             else:
                 cfg["queries_path"] = "queries.graphql"
                 writes.append(("queries.graphql", queries_of(world)))
@@ -716,6 +723,16 @@ def materialize(world, root: str, schema_partition=None, queries_partition=None,
         os.makedirs(os.path.dirname(p), exist_ok=True)
         with open(p, "w", encoding="utf-8") as f:
             f.write(text)
+    if linked_file_seed is not None and schema_partition:
+        # one file of the schema tree is a symbolic link to a file kept elsewhere (a definition file shared between projects)
+        lrng = random.Random(linked_file_seed)
+        rel = lrng.choice(sorted(r for r, _ in schema_partition))
+        inside = os.path.join(root, "schema_dir", rel)
+        outside = os.path.join(root, "shared_definitions", "kept_elsewhere_%s" % os.path.basename(rel))
+        if os.path.isfile(inside) and not os.path.islink(inside):
+            os.makedirs(os.path.dirname(outside), exist_ok=True)
+            os.replace(inside, outside)
+            os.symlink(os.path.relpath(outside, os.path.dirname(inside)), inside)
     for src_rel, dest_rel in (world.get("layout_symlink") or []) if schema_partition else []:
         src = os.path.join(root, "schema_dir", src_rel)
         dest = os.path.join(root, "schema_dir", dest_rel)
